@@ -329,12 +329,12 @@ if ck.replay:
 else:
     ex = gen_exhaustive(3 if ck.thorough() else 2)
     nexh = len(ex); seq_cases += ex
-    N = 60000 if ck.thorough() else 5000
+    N = 60000 if ck.thorough() else 4000
     for k in range(N):
         seq_cases.append(gen_seq(rng, 8 + rng.below(50), k % 5))
     cc_cases += conc_cases(rng, ck.thorough())
     list_cases += list_exhaustive(3 if ck.thorough() else 2)
-    for k in range(20000 if ck.thorough() else 2500): list_cases.append(gen_list(rng, 6 + rng.below(30)))
+    for k in range(20000 if ck.thorough() else 1500): list_cases.append(gen_list(rng, 6 + rng.below(30)))
 casefile = os.path.join(ck.scratch, "seq_cases.txt")
 open(casefile, "w").write("\n".join(seq_cases) + ("\n" if seq_cases else ""))
 
